@@ -256,6 +256,26 @@ class Ctx:
             self.undecided.append("apalache failed on %s: %s" % (module, o[-800:]))
         return ok
 
+    def tlapm(self, module, timeout=900, note=None):
+        """TLAPS: every proof obligation of the module must be discharged (no cached fingerprints are used)."""
+        mpath = os.path.join(ROOT, "spec", module)
+        cache = os.path.join(self.work, "tlapm-%d" % len(self.tlc_runs))
+        cmd = ["tlapm", "--cleanfp", "--stretch", "3", "--cache-dir", cache, os.path.basename(mpath)]
+        t = time.time()
+        try:
+            p = subprocess.run(cmd, stdout=subprocess.PIPE, stderr=subprocess.STDOUT, text=True, timeout=timeout, cwd=os.path.dirname(mpath))
+            o = p.stdout
+        except subprocess.TimeoutExpired:
+            o = "TIMEOUT"
+        shutil.rmtree(cache, ignore_errors=True)
+        m = re.search(r"All (\d+) obligations? proved", o)
+        self.tlc_runs.append({"tool": "tlapm", "module": module, "result": ("all %s obligations proved" % m.group(1)) if m else "failed",
+                              "wall_s": round(time.time() - t, 1), **({"note": note} if note else {})})
+        if not m:
+            # a proof that does not go through is a failure of the model/proof, never a violation of the code
+            self.undecided.append("tlapm did not prove %s: %s" % (module, o[-800:]))
+        return bool(m)
+
     # ------------------------------------------------------------------ trace validation
     def validate(self, module, cfg, trace, dfs=False, timeout=900, resets=True, max_rejects=8, env=None, heap="8g", workers=1):
         """Leg B: validate an ND-JSON trace (executions separated by {"e":"Reset"} lines) against a
